@@ -7,7 +7,8 @@ EXPL = ('(R-SCHEME) every path segment (entry -> loop head, one loop iteration, 
         'parameter unchanged, with the verdict returned - the direct and precomputed forms are interchangeable by construction; '
         '(R-CURSOR) the two-cursor merge of adjust_precomputed advances both cursors on equal indices and exactly the smaller '
         'side otherwise on every path, and both remainders are drained; (R-CONST) identity differences are reduced modulo r: '
-        'the borrow of (to - from) is repaired by adding the group order (value r), and r - from uses r as minuend.')
+        'the borrow of (to - from) is repaired by adding the group order (value r), and r - from uses r as minuend.'
+        ' (R-INBOUNDS) independently of the loop structure, a must-dataflow over the CFG shows that every element of an input list (attrs.attrs, sk.b, params.h) selected by a cursor is touched only where every path has tested that cursor against the list count since it last moved.')
 
 
 def run(ctx):
